@@ -1108,6 +1108,13 @@ func (db *DB) handleMemTableFlush(mt *memTable, dropPrefixes [][]byte) error {
 	if err != nil {
 		return y.Wrap(err, "error while creating table")
 	}
+	// Make the new table's directory entry durable before the MANIFEST refers to it (as
+	// compactBuildTables does): otherwise a power loss can leave a MANIFEST that names a table
+	// file which no longer exists, and the DB does not open.
+	if err := db.syncDir(db.opt.Dir); err != nil {
+		_ = tbl.DecrRef()
+		return y.Wrap(err, "error while syncing dir after creating table")
+	}
 	// We own a ref on tbl.
 	y.VerifPoint("flush.add")
 	err = db.lc.addLevel0Table(tbl) // This will incrRef
